@@ -134,6 +134,41 @@ def sdf_cycle(models, version):
     return None
 
 
+def header_contract(fields):
+    import datetime
+    h = mol.Header(**fields)
+    a = molecule(["C"], [0], [])
+    f = mol.MOLFile()
+    f.header = h
+    f.set_structure(a)
+    s = io.StringIO()
+    f.write(s)
+    g = mol.MOLFile.read(io.StringIO(s.getvalue()))
+    for k, v in fields.items():
+        got = getattr(g.header, k)
+        if got != v:
+            return f"header field {k}: read {got!r}, wrote {v!r}"
+    rec = mol.SDRecord(header=h)
+    rec.set_structure(a)
+    r2 = mol.SDRecord.deserialize(rec.serialize())
+    for k, v in fields.items():
+        if getattr(r2.header, k) != v:
+            return f"SD record header field {k}: read {getattr(r2.header, k)!r}, wrote {v!r}"
+    return None
+
+
+import datetime
+HEADERS = [
+    {"mol_name": "X"}, {"mol_name": "A" * 80}, {"initials": "AB", "program": "PROGRAM1"}, {"initials": "Z", "program": "P"},
+    {"dimensions": "3D"}, {"dimensions": "2D", "scaling_factors": "12"}, {"energy": "123456789012"}, {"energy": "-1.5"},
+    {"registry_number": "1"}, {"registry_number": "123"}, {"registry_number": "654321"}, {"comments": "c" * 80}, {"comments": "with spaces  inside"},
+    {"time": datetime.datetime(2024, 2, 29, 23, 59)},
+    {"mol_name": "M", "initials": "QQ", "program": "ABCDEFGH", "dimensions": "3D", "registry_number": "999999", "comments": "all fields"},
+]
+for fields in HEADERS:
+    R.check("MOL/SDF header fields survive unchanged (incl. values filling their columns)", "header", {k: str(v) for k, v in fields.items()},
+            lambda fields=fields: header_contract(fields))
+
 for models in (None,):
     for version in ("V2000", "V3000"):
         R.check("SDF records: models become conformers and return; header/metadata/record order survive", f"sdf {version}",
